@@ -2,6 +2,7 @@
 //! Every `#[kani::proof]` is preceded by `// @key value` tags read by /verif/bin/check.
 #![allow(clippy::all)]
 #![allow(dead_code)]
+#![cfg_attr(kani, feature(allocator_api))]
 
 pub mod spec;
 
@@ -9,6 +10,8 @@ pub mod spec;
 mod c_bits;
 #[cfg(kani)]
 mod c_grid;
+#[cfg(kani)]
+mod c_dct;
 #[cfg(kani)]
 mod c_errors;
 #[cfg(kani)]
